@@ -222,9 +222,17 @@ pub fn containers(out: &mut Out, rng: &mut Rng, thorough: bool) {
             let mut v: Vec<u8> = vec![];
             let mut h = HeapBytes::default();
             let mut l = HeapBytes::new_locked().unwrap();
+            let mut u = HeapBytes::new_locked().unwrap().munlock().unwrap();
             for (step, &n) in script.iter().enumerate() {
                 let old = v.len();
-                v.resize(n, 0); h.resize(n, 0); l.resize(n, 0);
+                // the fill value is the caller's: zero on odd steps, something else on even ones
+                let fv: u8 = if step % 2 == 1 { 0 } else { (step as u8).wrapping_mul(37).wrapping_add(round as u8) | 1 };
+                v.resize(n, fv); h.resize(n, fv); l.resize(n, fv); u.resize(n, fv);
+                { let rp2 = json!({"op":"containers.resize-script","script":script,"step":step,"fill":fv});
+                  if h.as_slice() != &v[..] { out.hit("containers.differ.resize-fill.heap", format!("step {} (resize {} -> {} filling with {}): HeapBytes differs from Vec", step, old, n, fv), rp2.clone()); }
+                  if l.as_slice() != &v[..] { out.hit("containers.differ.resize-fill.locked", format!("step {} (resize {} -> {} filling with {}): LockedBytes differs from Vec", step, old, n, fv), rp2.clone()); }
+                  if u.as_slice() != &v[..] { out.hit("containers.differ.resize-fill.unlocked", format!("step {} (resize {} -> {} filling with {}): Unlocked<HeapBytes> differs from Vec", step, old, n, fv), rp2.clone()); } }
+                for k in old..n { u.as_mut_slice()[k] = fill(k); }
                 for k in old..n { v[k] = fill(k); h.as_mut_slice()[k] = fill(k); l.as_mut_slice()[k] = fill(k); }
                 out.search_evaluations += 2;
                 let rp2 = json!({"op":"containers.resize-script","script":script,"step":step});
